@@ -8,6 +8,21 @@ canonicalised through the class's field list; they can be *unfolded* on request 
 evaluating the class's ``evaluate`` method in the same way.  Nothing is executed: this is
 forward substitution plus algebraic normalisation.
 
+Spellings that denote the same construction evaluate to the same value: ``x is None`` / ``is not`` are
+relations like ``==``; ``{**a, **b}`` is the merged dict display; a conditional expression whose test is decided
+by constants is its taken arm; ``f = self.__m`` binds the method to the abstract ``self`` (``Bound``) and
+``f(...)`` is the call of that method; a statement ``_require_x(pool)`` that calls a helper which only validates
+(tests, raises) contributes nothing; under ``fork`` a test outside the grammar is an opaque path label, and a
+caller that unpacks the per-path tuples of a forked callee is continued once per path.
+
+Statement grammar of a function body: assignments (tuple unpacking, ``x op= e`` on scalar / matrix
+terms, ``d[k] = v`` on a dict value - in place, so a dict held by ``self`` and filled by a helper method
+is seen by the caller), ``if`` on tests that constant propagation decides (or forked, see ``fork``),
+guard clauses that only raise, ``return``.  Expression grammar: arithmetic, calls of package functions
+(inlined) and classes, the SymPy constructors below, list / generator comprehensions over tuples of
+known length (``a, b = (f(x) for x in (s, s0))``), and calls of builtins / string methods over
+constants (``"".join(map(str, ids))``), which are folded to the constant.
+
 Anything outside the grammar raises ``ExtractionError`` (reported as ANALYSIS-ERROR for
 that instance, never as a pass or a violation).
 """
@@ -109,6 +124,18 @@ class DictV:
 
 
 @dataclass
+class Bound:
+    """A method looked up on the abstract `self` without being called (`f = self.__a if flag else self.__b`):
+    the function and the receiver it is bound to (None for a staticmethod)."""
+
+    func: str
+    recv: Any
+
+    def key(self):
+        return ("bound", self.func, vkey(self.recv))
+
+
+@dataclass
 class AppInfo:
     """What an App atom stands for (kept in a side table keyed by the atom)."""
 
@@ -120,7 +147,7 @@ class AppInfo:
 def vkey(v) -> Any:
     if isinstance(v, RF):
         return v.key()
-    if isinstance(v, (Tup, Mat, Rel, PW, DictV)):
+    if isinstance(v, (Tup, Mat, Rel, PW, DictV, Bound)):
         return v.key()
     if isinstance(v, dict):
         return ("struct", tuple(sorted((str(k), vkey(x)) for k, x in v.items())))
@@ -271,7 +298,7 @@ class TermEval:
     def _ev_Compare(self, node, env, fn, depth):
         if len(node.ops) != 1:
             raise ExtractionError("chained comparison")
-        ops = {ast.Lt: "<", ast.LtE: "<=", ast.Gt: ">", ast.GtE: ">=", ast.Eq: "==", ast.NotEq: "!="}
+        ops = {ast.Lt: "<", ast.LtE: "<=", ast.Gt: ">", ast.GtE: ">=", ast.Eq: "==", ast.NotEq: "!=", ast.Is: "is", ast.IsNot: "is not"}
         op = ops.get(type(node.ops[0]))
         if op is None:
             raise ExtractionError(f"comparison {type(node.ops[0]).__name__}")
@@ -327,6 +354,11 @@ class TermEval:
             head, *rest = chain.split(".")
             if head in env:
                 base = env[head]
+                if head in {"self", "cls"} and isinstance(base, dict) and len(rest) == 1 and rest[0] not in base and fn is not None:
+                    target = self.tree.resolve(fn.module, node, fn)
+                    if target in self.tree.funcs:  # a method of the class, not a field: the bound method
+                        static = any(unparse(d) == "staticmethod" for d in self.tree.funcs[target].node.decorator_list)
+                        return Bound(target, None if static else base)
                 return self._attr_of(base, rest, node)
             if fn is not None:
                 target = self.tree.resolve(fn.module, node, fn)
@@ -389,18 +421,75 @@ class TermEval:
         return RF.atom(("idx", bkey, tuple(vkey(i) for i in idx_items)))
 
     def _ev_IfExp(self, node, env, fn, depth):
+        # decided by constant propagation (a flag of the abstract `self`, an index): the value of the taken arm
+        try:
+            decided = self.const(node.test, env, fn)
+        except TermEval.NotConst:
+            decided = None
+        if isinstance(decided, bool):
+            return self.ev(node.body if decided else node.orelse, env, fn, depth)
         raise ExtractionError("conditional expression")
 
     def _ev_BoolOp(self, node, env, fn, depth):
         vals = [self.ev(v, env, fn, depth) for v in node.values]
         return Opaque((type(node.op).__name__.lower(), tuple(vkey(v) for v in vals)))
 
+    def _ev_GeneratorExp(self, node, env, fn, depth):
+        """A comprehension over collections of known length and order (tuple / list values): the tuple of its
+        element values in iteration order.  Filters must be decidable over constants."""
+        out: list = []
+
+        def rec(gens, env_):
+            if not gens:
+                out.append(self.ev(node.elt, env_, fn, depth))
+                return
+            g = gens[0]
+            if g.is_async:
+                raise ExtractionError("async comprehension")
+            try:
+                seq = self.ev(g.iter, env_, fn, depth)
+            except ExtractionError as exc:
+                if isinstance(exc, RaisedError):
+                    raise
+                try:
+                    seq = self._from_py(self.const(g.iter, env_, fn))
+                except TermEval.NotConst:
+                    raise exc from None
+            if not isinstance(seq, Tup):
+                raise ExtractionError(f"comprehension over `{unparse(g.iter)[:50]}`: not a collection of known length and order")
+            for item in seq.items:
+                env2 = dict(env_)
+                self._assign(g.target, item, env2, fn, depth)
+                keep = True
+                for cond in g.ifs:
+                    try:
+                        decided = self.const(cond, env2, fn)
+                    except TermEval.NotConst:
+                        raise ExtractionError(f"comprehension filter `{unparse(cond)[:50]}` is not decidable over constants") from None
+                    if not decided:
+                        keep = False
+                        break
+                if keep:
+                    rec(gens[1:], env2)
+
+        rec(list(node.generators), env)
+        return Tup(out)
+
+    _ev_ListComp = _ev_GeneratorExp
+
     def _ev_Dict(self, node, env, fn, depth):
         items = []
         for k, v in zip(node.keys, node.values):
             if k is None:
-                raise ExtractionError("dict unpacking")
-            items.append((self.ev(k, env, fn, depth), self.ev(v, env, fn, depth)))
+                # `{**a, k: v}`: the entries of a dict value, later entries replacing earlier ones with an equal key
+                other = self.ev(v, env, fn, depth)
+                if not isinstance(other, DictV):
+                    raise ExtractionError("dict unpacking of a value that is not a dict display")
+                new = list(other.items)
+            else:
+                new = [(self.ev(k, env, fn, depth), self.ev(v, env, fn, depth))]
+            for kk, vv in new:
+                items = [(a, b) for a, b in items if vkey(a) != vkey(kk)] + [(kk, vv)]
         return DictV(items)
 
     # ------------------------------------------------------------------ calls
@@ -426,6 +515,12 @@ class TermEval:
             callee = self.tree.resolve(fn.module, func, fn)
         # a callable held in the environment (parameter / field): opaque application
         if callee is None:
+            # a call of a builtin / a method of a constant over constants (`"".join(map(str, ids))`, `len(t)`)
+            # is that constant: the same value whether it is written inside an f-string or passed to a helper
+            try:
+                return self._from_py(self.const(node, env, fn))
+            except TermEval.NotConst:
+                pass
             fval = None
             try:
                 fval = self.ev(func, env, fn, depth)
@@ -436,10 +531,22 @@ class TermEval:
             )
             if known:
                 callee = fval.key[1]
+            elif isinstance(fval, Bound):
+                # the call of a bound method held in a local: the call of that method on that receiver
+                if depth >= self.inline_depth:
+                    raise ExtractionError(f"inlining depth exceeded at {fval.func}")
+                args, kwargs = self._args(node, env, fn, depth)
+                if fval.func in self.overrides:
+                    return self.overrides[fval.func](self, args, kwargs)
+                if fval.recv is not None:
+                    args = [fval.recv, *args]
+                return self.eval_function(self.tree.funcs[fval.func], args, kwargs, depth + 1)
             elif fval is not None:
                 args = [self.ev(a, env, fn, depth) for a in node.args]
                 kwargs = {k.arg: self.ev(k.value, env, fn, depth) for k in node.keywords if k.arg}
                 return self.app("call:" + repr(vkey(fval)), args, kwargs)
+        if callee is None and isinstance(func, ast.Name) and func.id in {"int", "float"} and func.id not in env and len(node.args) == 1 and not node.keywords:
+            return self.ev(node.args[0], env, fn, depth)  # the builtin conversion of a term: the term (as in `call`)
         if callee is None:
             raise ExtractionError(f"unresolved call `{unparse(node)[:70]}`")
         return self.call(callee, node, env, fn, depth)
@@ -840,6 +947,18 @@ class TermEval:
                     base = base.value if not isinstance(base, ast.Call) else base.func
                 if isinstance(base, ast.Name) and base.id in {"_LOGGER", "logging", "warnings", "printer"}:
                     continue  # logging / printer bookkeeping does not contribute to the term
+            if isinstance(st, ast.Expr) and isinstance(st.value, ast.Call):
+                # `_require_x(pool)`: a helper whose value is discarded and whose body only validates (tests,
+                # raises, string locals - no stores, no calls as statements) contributes nothing to the term;
+                # it is evaluated so that a guard that fires for these constants still raises here
+                callee = self.tree.resolve(fn.module, st.value.func, fn)
+                target = self.tree.funcs.get(callee) if callee else None
+                if target is not None and _only_validates(target.node.body):
+                    try:
+                        self.ev(st.value, env, fn, depth)
+                    except NoReturn:
+                        pass
+                    continue
             if isinstance(st, (ast.Import, ast.ImportFrom, ast.Pass)):
                 continue
             if isinstance(st, (ast.FunctionDef,)):
@@ -855,7 +974,7 @@ class TermEval:
             if isinstance(st, ast.AnnAssign):
                 if st.value is None:
                     continue
-                self._assign(st.target, self.ev(st.value, env, fn, depth), env)
+                self._assign(st.target, self.ev(st.value, env, fn, depth), env, fn, depth)
                 continue
             if isinstance(st, ast.Assign):
                 try:
@@ -867,8 +986,34 @@ class TermEval:
                         val = self._from_py(self.const(st.value, env, fn))
                     except TermEval.NotConst:
                         raise exc from None
+                if self.fork and isinstance(val, PW) and any(isinstance(t, (ast.Tuple, ast.List)) for t in st.targets):
+                    # a forked callee returned one tuple per path and the caller unpacks it (a SymPy Piecewise
+                    # cannot be unpacked): the rest of this body is evaluated once per path of the callee
+                    rest = body[idx + 1:]
+                    branches = []
+                    for bval, bcond in val.branches:
+                        benv = dict(env)
+                        for t in st.targets:
+                            self._assign(t, bval, benv, fn, depth)
+                        try:
+                            res = self.eval_body(rest, benv, fn, depth)
+                        except RaisedError:
+                            continue
+                        if isinstance(res, PW):
+                            branches += [(v, Tup([bcond, c2])) for v, c2 in res.branches]
+                        else:
+                            branches.append((res, bcond))
+                    if not branches:
+                        raise NoReturn(f"{fn.qual}: every path raises")
+                    return branches[0][0] if len(branches) == 1 else PW(branches)
                 for t in st.targets:
-                    self._assign(t, val, env)
+                    self._assign(t, val, env, fn, depth)
+                continue
+            if isinstance(st, ast.AugAssign) and isinstance(st.target, ast.Name) and isinstance(env.get(st.target.id), (RF, Mat, int, Fraction)):
+                # `x op= e` on a scalar / matrix term rebinds x to `x op e` (term values are immutable, so there
+                # is no aliasing to respect; lists, dicts and strings stay outside the grammar)
+                binop = ast.copy_location(ast.BinOp(left=ast.Name(id=st.target.id, ctx=ast.Load()), op=st.op, right=st.value), st)
+                env[st.target.id] = self.ev(binop, env, fn, depth)
                 continue
             if isinstance(st, ast.If):
                 # a test over constants (finite index domain) is decided by constant propagation
@@ -888,7 +1033,16 @@ class TermEval:
                             pass
                     continue
                 if self.fork and not all(isinstance(s_, ast.Raise) or (isinstance(s_, ast.Assign) and _only_strings(s_)) for s_ in st.body):
-                    cond = self.ev(st.test, env, fn, depth)
+                    try:
+                        cond = self.ev(st.test, env, fn, depth)
+                    except RaisedError:
+                        raise
+                    except ExtractionError:
+                        # the test is only the LABEL of the two paths (both are evaluated): a test outside the
+                        # term grammar is an opaque label (locals numbered, so it is stable under renaming)
+                        from .canon import canon
+
+                        cond = Opaque(("test", canon(st.test, fn.node)))
                     rest = body[idx + 1 :]
                     branches = []
                     for block, c in ((st.body, cond), (st.orelse, Opaque(("else-of", vkey(cond))))):
@@ -910,10 +1064,26 @@ class TermEval:
             raise ExtractionError(f"{fn.qual}: statement {type(st).__name__} outside the straight-line grammar")
         raise NoReturn(f"{fn.qual}: no return reached")
 
-    def _assign(self, target, val, env):
+    def _assign(self, target, val, env, fn=None, depth=0):
         if isinstance(target, ast.Name):
             env[target.id] = val
+        elif isinstance(target, ast.Subscript) and not isinstance(target.slice, ast.Slice):
+            # `d[k] = v` on a dict value: updated in place, so every alias (a field of `self` handed to a
+            # helper method, a local name for it) sees the entry - like the Python object
+            if self.fork:
+                raise ExtractionError("item assignment under path forking (the paths would share the mapping)")
+            base = self.ev(target.value, env, fn, depth)
+            if not isinstance(base, DictV):
+                raise ExtractionError(f"item assignment to `{unparse(target.value)[:40]}`: not a dict value")
+            key = self.ev(target.slice, env, fn, depth)
+            kk = vkey(key)
+            base.items[:] = [(a, b) for a, b in base.items if vkey(a) != kk] + [(key, val)]
         elif isinstance(target, (ast.Tuple, ast.List)):
+            if (isinstance(val, Opaque) and isinstance(val.key, tuple) and val.key and val.key[0] in {"ref", "attr"}
+                    and not any(isinstance(t, ast.Starred) for t in target.elts)):
+                # `a, b = x.pair` on an opaque object: a is what `x.pair[0]` denotes, b what `x.pair[1]` denotes
+                # (the same atoms as _ev_Subscript makes; a length mismatch would raise in Python)
+                val = Tup([RF.atom(("sym", ("attr", val.key, ("idx", (vkey(RF.const(i)),))))) for i in range(len(target.elts))])
             if not isinstance(val, Tup):
                 raise ExtractionError("unpacking a non-tuple")
             star = [i for i, t in enumerate(target.elts) if isinstance(t, ast.Starred)]
@@ -921,15 +1091,15 @@ class TermEval:
                 if len(val.items) != len(target.elts):
                     raise ExtractionError(f"unpacking {len(val.items)} values into {len(target.elts)} targets")
                 for t, v in zip(target.elts, val.items):
-                    self._assign(t, v, env)
+                    self._assign(t, v, env, fn, depth)
             else:
                 s = star[0]
                 n_after = len(target.elts) - s - 1
                 for t, v in zip(target.elts[:s], val.items[:s]):
-                    self._assign(t, v, env)
-                self._assign(target.elts[s].value, Tup(val.items[s: len(val.items) - n_after]), env)
+                    self._assign(t, v, env, fn, depth)
+                self._assign(target.elts[s].value, Tup(val.items[s: len(val.items) - n_after]), env, fn, depth)
                 for t, v in zip(target.elts[s + 1:], val.items[len(val.items) - n_after:]):
-                    self._assign(t, v, env)
+                    self._assign(t, v, env, fn, depth)
         else:
             raise ExtractionError(f"assignment target {type(target).__name__}")
 
@@ -1031,6 +1201,23 @@ def deep_atoms(te: "TermEval", v, _seen=None) -> set:
 
     visit(v)
     return out
+
+
+def _only_validates(body: list) -> bool:
+    """A body made of tests, raises, value-less returns and assignments of strings to plain locals."""
+    for st in body:
+        if isinstance(st, ast.Expr) and isinstance(st.value, ast.Constant):
+            continue
+        if isinstance(st, (ast.Raise, ast.Pass)):
+            continue
+        if isinstance(st, ast.Return) and (st.value is None or (isinstance(st.value, ast.Constant) and st.value.value is None)):
+            continue
+        if isinstance(st, ast.Assign) and all(isinstance(t, ast.Name) for t in st.targets) and _only_strings(st):
+            continue
+        if isinstance(st, ast.If) and _only_validates(st.body) and _only_validates(st.orelse):
+            continue
+        return False
+    return True
 
 
 def _only_strings(st: ast.Assign) -> bool:
